@@ -25,12 +25,14 @@ CONSTANTS NodeSeq,        \* sequence of node names, e.g. <<"n1","n2","n3">>
           EditBudget,     \* number of template edits by the user
           AnnBudget,      \* number of annotation toggles by the user
           MaxPerNode,     \* bound on pods per node (creation is disabled beyond it)
-          AgeCap          \* ages saturate here
+          AgeCap,         \* ages saturate here
+          FaultBudget     \* number of faults (rejected write / process stop) between the two writes of a rollback
 
-VARIABLES nd, pd, rv, ed, bud, ev
-vars == <<nd, pd, rv, ed, bud, ev>>
+VARIABLES nd, pd, rv, ed, bud, ev,
+          pend      \* the write an in-flight rollback of the EDS reconciler still has to issue (API-call grain, see below)
+vars == <<nd, pd, rv, ed, bud, ev, pend>>
 \* the stale status counters of the ExtendedDaemonSet only decide whether the next reconcile rewrites them
-view == <<nd, pd, rv, [ed EXCEPT !.current = 0, !.ready = 0, !.available = 0, !.upToDate = 0], bud>>
+view == <<nd, pd, rv, [ed EXCEPT !.current = 0, !.ready = 0, !.available = 0, !.upToDate = 0], bud, pend>>
 
 NodeIds == SeqToSet(NodeSeq)
 Tmpls   == SeqToSet(TmplSeq)
@@ -133,7 +135,8 @@ Init ==
     /\ ed = [defaulted |-> FALSE, tmpl |-> TmplSeq[1], ruPaused |-> FALSE, frozen |-> FALSE, cPaused |-> FALSE, cUnpaused |-> FALSE,
              cValid |-> 0, active |-> 0, hasCanary |-> FALSE, canaryRS |-> 0, cNodes |-> <<>>, state |-> "", desired |-> 0,
              current |-> 0, ready |-> 0, available |-> 0, upToDate |-> 0, condPaused |-> NoCond, condFailed |-> NoCond]
-    /\ bud = [env |-> EnvBudget, edit |-> EditBudget, ann |-> AnnBudget]
+    /\ bud = [env |-> EnvBudget, edit |-> EditBudget, ann |-> AnnBudget, fault |-> FaultBudget]
+    /\ pend = <<>>
     /\ ev = [ev |-> "init", label |-> "init", state |-> AbsOf(nd, pd, rv, ed)]
 
 -----------------------------------------------------------------------------
@@ -422,13 +425,61 @@ User    == (\E t \in Tmpls : SetTemplate(t)) \/ Toggle("ruPaused") \/ Toggle("fr
 CanaryUser == Validate \/ CmdPause \/ CmdUnpause
 Sync    == EDSReconcile \/ \E i \in DOMAIN TmplSeq : ERSReconcile(i)
 
-Next == Sync \/ Kubelet \/ Disturb \/ User \/ Tick
-NextCanary == Next \/ CanaryUser
-NextNarrow == NextCanary \/ Narrow
+-----------------------------------------------------------------------------
+(* API-call grain for the one multi-write path the properties single out (C07, C11): the rollback of a failed canary  *)
+(* is a status write followed by a spec write.  RollbackBegin issues the first, RollbackFinish the second; between   *)
+(* them every other actor may move, the spec write may be rejected (also by optimistic concurrency when the user      *)
+(* edited the object meanwhile) and the process may stop.  The atomic EDSReconcile remains (= Begin . Finish).       *)
+
+FailedCase ==
+    LET s == S  d == AbsEDSOf(ed) IN
+      /\ ed.defaulted /\ Strat.canary /\ UpToDateListed(s, d) # {}
+      /\ LET u == CHOOSE x \in UpToDateListed(s, d) : TRUE IN
+           EDSFailed(u) /\ SelectCurrent(s, d, u, CanaryEnded(d, u)) # u.id
+
+RollbackBegin ==
+    /\ pend = <<>> /\ FailedCase
+    /\ LET s == S  d == AbsEDSOf(ed)
+           u    == CHOOSE x \in UpToDateListed(s, d) : TRUE
+           cur  == SelectCurrent(s, d, u, CanaryEnded(d, u))
+           curR == RSOf(s, cur)
+           ed2  == [ed EXCEPT !.current = SumRS(LAMBDA r : r.current), !.ready = SumRS(LAMBDA r : r.ready), !.available = SumRS(LAMBDA r : r.available),
+                              !.active = cur, !.desired = curR.desired, !.upToDate = curR.current,
+                              !.condFailed = UpdCond(@, TRUE, FALSE), !.condPaused = UpdCond(@, FALSE, FALSE),
+                              !.hasCanary = FALSE, !.canaryRS = 0, !.cNodes = <<>>, !.state = "Canary Failed"]
+       IN /\ ed' = ed2
+          /\ pend' = <<[tmpl |-> curR.tmpl, base |-> <<ed.tmpl, ed.ruPaused, ed.frozen, ed.cPaused, ed.cUnpaused, ed.cValid>>]>>
+          /\ UNCHANGED <<nd, pd, rv, bud>>
+          /\ ev' = Event("EDSStatusWrite", EDSKey, 0, <<Wr("status", "EDS", 0, "", "", 0, "status")>>, NoRes, AbsOf(nd, pd, rv, ed2))
+
+RollbackFinish ==
+    /\ pend # <<>>
+    /\ LET same == pend[1].base = <<ed.tmpl, ed.ruPaused, ed.frozen, ed.cPaused, ed.cUnpaused, ed.cValid>>   \* else: conflict, the write is refused
+           ed2  == IF same THEN [ed EXCEPT !.tmpl = pend[1].tmpl, !.cPaused = FALSE, !.cUnpaused = FALSE] ELSE ed
+       IN /\ ed' = ed2
+          /\ pend' = <<>>
+          /\ UNCHANGED <<nd, pd, rv, bud>>
+          /\ ev' = Event("EDSSpecWrite", EDSKey, 0, <<[Wr("update", "EDS", 0, "", "", 0, "spec") EXCEPT !.ok = same]>>,
+                         [NoRes EXCEPT !.err = ~same, !.errKind = IF same THEN "" ELSE "conflict"], AbsOf(nd, pd, rv, ed2))
+
+\* the spec write is rejected, or the process stops before issuing it: the pending write is lost (nothing is kept in memory)
+RollbackFault ==
+    /\ pend # <<>> /\ bud.fault > 0
+    /\ pend' = <<>>
+    /\ bud' = [bud EXCEPT !.fault = @ - 1]
+    /\ UNCHANGED <<nd, pd, rv, ed>>
+    /\ ev' = EnvEvent("ControllerFault", S)
+
+Atomic(A) == A /\ UNCHANGED pend
+Next == Atomic((pend = <<>> /\ EDSReconcile) \/ (\E i \in DOMAIN TmplSeq : ERSReconcile(i)) \/ Kubelet \/ Disturb \/ User \/ Tick)
+NextCanary == Next \/ Atomic(CanaryUser)
+NextNarrow == NextCanary \/ Atomic(Narrow)
+NextFine   == NextCanary \/ RollbackBegin \/ RollbackFinish \/ RollbackFault
 
 Spec       == Init /\ [][Next]_vars
 SpecCanary == Init /\ [][NextCanary]_vars
 SpecNarrow == Init /\ [][NextNarrow]_vars
+SpecFine   == Init /\ [][NextFine]_vars
 
 -----------------------------------------------------------------------------
 (* the step formulas of Props.tla on every transition of the model *)
@@ -457,18 +508,26 @@ I_C13m == C13_Inv(S)
 OnePerNode == \A n \in NodeIds : Cardinality({ k \in DOMAIN pd[n] : ~pd[n][k].term /\ pd[n][k].phase \notin {"Failed", "Unknown"} }) <= 1 + (EnvBudget - bud.env)
 
 TypeOK == /\ \A n \in NodeIds : Len(pd[n]) <= MaxPerNode
-          /\ bud.env >= 0 /\ bud.edit >= 0 /\ bud.ann >= 0
+          /\ bud.env >= 0 /\ bud.edit >= 0 /\ bud.ann >= 0 /\ bud.fault >= 0 /\ Len(pend) <= 1
+
+\* C07 / C11, safety at the API-call grain: whatever happens between the two writes of a rollback, the active replica
+\* set is never the failed one, and a half-done rollback is recognisable from the API objects alone (so that a fresh
+\* controller instance redoes it)
+I_Rollback == \A i \in DOMAIN TmplSeq : (rv[i].exists /\ rv[i].conds["CanaryFailed"].true /\ Strat.canary /\ ed.cValid # i) => ed.active # i
+HalfDoneIsVisible == (pend = <<>> /\ ed.defaulted /\ ed.state = "Canary Failed" /\ ed.active > 0 /\ rv[ed.active].exists /\ ed.tmpl # rv[ed.active].tmpl /\ rv[TIdx(ed.tmpl)].exists
+                        /\ rv[TIdx(ed.tmpl)].conds["CanaryFailed"].true) => ENABLED Atomic(EDSReconcile)
 
 -----------------------------------------------------------------------------
 (* liveness (design level).  Weak fairness of the reconcilers, of the kubelet's progress actions and of the clock;   *)
 (* bounding is done by budgets inside the actions, not by a state constraint, so no constraint can hide a           *)
 (* non-progress cycle.                                                                                              *)
-Fair == /\ WF_vars(EDSReconcile)
-        /\ \A i \in DOMAIN TmplSeq : WF_vars(ERSReconcile(i))
-        /\ \A n \in NodeIds : \A k \in 1..MaxPerNode : WF_vars(KReady(n, k)) /\ WF_vars(KFinish(n, k))
-        /\ WF_vars(Tick)
+Fair == /\ WF_vars(Atomic(pend = <<>> /\ EDSReconcile))
+        /\ \A i \in DOMAIN TmplSeq : WF_vars(Atomic(ERSReconcile(i)))
+        /\ \A n \in NodeIds : \A k \in 1..MaxPerNode : WF_vars(Atomic(KReady(n, k))) /\ WF_vars(Atomic(KFinish(n, k)))
+        /\ WF_vars(Atomic(Tick))
 LiveSpec       == Init /\ [][Next]_vars /\ Fair
 LiveSpecCanary == Init /\ [][NextCanary]_vars /\ Fair
+LiveSpecFine   == Init /\ [][NextFine]_vars /\ Fair /\ WF_vars(RollbackFinish)
 
 \* the environment and the user are done, nothing is paused
 Quiet == bud.env = 0 /\ bud.edit = 0 /\ bud.ann = 0 /\ ~ed.ruPaused /\ ~ed.frozen /\ ~ed.cPaused
